@@ -1,10 +1,511 @@
-(* C09 / C11 — lemmas about Model/Pattern.v against Proofs/PatternSpec.v. *)
+(* C09 / C11 — lemmas about Model/Pattern.v: totality of the parser (fuel),
+   absence of panics, visibility of errors. *)
 From Coq Require Import String Ascii.
-From Coq Require Import List NArith Bool Lia.
+From Coq Require Import List NArith Bool Lia Arith.
 Import ListNotations.
 From L4 Require Import Model.Pattern Proofs.PatternSpec.
 Local Open Scope N_scope.
 
-Lemma error_chunk_renders :
-  forall ok ts e m, enc_chunk ok ts e (CError m) = chars (lit "{ERROR: " ++ m ++ lit "}").
-Proof. reflexivity. Qed.
+(* ------------------------------------------------------------------ *)
+(* induction principles for the nested types *)
+
+Section PieceInd.
+  Variable P : piece -> Prop.
+  Hypothesis Htext : forall t, P (PText t).
+  Hypothesis Herr : forall m, P (PError m).
+  Hypothesis Harg : forall nm args prm, Forall (Forall P) args -> P (PArg nm args prm).
+
+  Fixpoint piece_ind' (p : piece) : P p :=
+    match p with
+    | PText t => Htext t
+    | PError m => Herr m
+    | PArg nm args prm =>
+      Harg nm args prm
+        ((fix outer (l : list (list piece)) : Forall (Forall P) l :=
+            match l with
+            | [] => Forall_nil _
+            | a :: r =>
+              Forall_cons a
+                ((fix inner (l' : list piece) : Forall P l' :=
+                    match l' with
+                    | [] => Forall_nil _
+                    | x :: r' => Forall_cons x (piece_ind' x) (inner r')
+                    end) a)
+                (outer r)
+            end) args)
+    end.
+End PieceInd.
+
+Section ChunkInd.
+  Variable P : chunk -> Prop.
+  Hypothesis Htext : forall t, P (CText t).
+  Hypothesis Hleaf : forall k p, P (CLeaf k p).
+  Hypothesis Herr : forall m, P (CError m).
+  Hypothesis Hpanic : P CPanic.
+  Hypothesis Hgroup : forall g cs p, Forall P cs -> P (CGroup g cs p).
+
+  Fixpoint chunk_ind' (c : chunk) : P c :=
+    match c with
+    | CText t => Htext t
+    | CLeaf k p => Hleaf k p
+    | CError m => Herr m
+    | CPanic => Hpanic
+    | CGroup g cs p =>
+      Hgroup g cs p
+        ((fix inner (l : list chunk) : Forall P l :=
+            match l with
+            | [] => Forall_nil _
+            | x :: r => Forall_cons x (chunk_ind' x) (inner r)
+            end) cs)
+    end.
+End ChunkInd.
+
+(* ------------------------------------------------------------------ *)
+(* the parser terminates within its fuel *)
+
+Lemma span_length : forall p s a b, span p s = (a, b) -> (length b <= length s)%nat.
+Proof.
+  induction s as [|c r IH]; cbn; intros a b H.
+  - inversion H; subst; cbn; lia.
+  - destruct (p c).
+    + destruct (span p r) as [a' b'] eqn:E. inversion H; subst.
+      specialize (IH _ _ eq_refl). lia.
+    + inversion H; subst; cbn; lia.
+Qed.
+
+Lemma consume_length : forall ch s r, consume ch s = Some r -> length s = S (length r).
+Proof.
+  intros ch [|c s] r; cbn; [discriminate|].
+  destruct (c =? ch); [|discriminate]. intros H; inversion H; subst; reflexivity.
+Qed.
+
+Lemma integer_loop_length :
+  forall s cur found c f r, integer_loop s cur found = (c, f, r) -> (length r <= length s)%nat.
+Proof.
+  induction s as [|x s IH]; cbn; intros cur found c f r H.
+  - inversion H; subst; cbn; lia.
+  - destruct (digit_val x).
+    + apply IH in H. lia.
+    + inversion H; subst; cbn; lia.
+Qed.
+
+Lemma integer_length : forall s x r, integer s = (x, r) -> (length r <= length s)%nat.
+Proof.
+  intros s x r. unfold integer.
+  destruct (integer_loop s (Some 0) false) as [[c f] r'] eqn:E.
+  apply integer_loop_length in E.
+  destruct c, f; intros H; inversion H; subst; exact E.
+Qed.
+
+Lemma parameters_length : forall s x r, parameters s = (x, r) -> (length r <= length s)%nat.
+Proof.
+  intros s x r. unfold parameters.
+  destruct s as [|c s]; [intros H; inversion H; subst; cbn; lia|].
+  destruct (c =? 58); [|intros H; inversion H; subst; cbn; lia].
+  set (fr := match s with
+             | ch :: c2 :: _ => if (c2 =? 60) || (c2 =? 62) then (ch, tl s) else (32, s)
+             | _ => (32, s)
+             end).
+  assert (Hfr : (length (snd fr) <= length s)%nat).
+  { subst fr. destruct s as [|ch [|c2 s']]; cbn; try lia.
+    destruct ((c2 =? 60) || (c2 =? 62)); cbn; lia. }
+  destruct fr as [fill r1]. cbn in Hfr.
+  set (ar := match r1 with
+             | a :: r' => if a =? 60 then (ALeft, r') else if a =? 62 then (ARight, r') else (ALeft, r1)
+             | [] => (ALeft, r1)
+             end).
+  assert (Har : (length (snd ar) <= length r1)%nat).
+  { subst ar. destruct r1 as [|a r']; cbn; try lia.
+    destruct (a =? 60); cbn; try lia. destruct (a =? 62); cbn; lia. }
+  destruct ar as [al r2]. cbn in Har.
+  destruct (integer r2) as [[mn|e] r3] eqn:E3; apply integer_length in E3.
+  - destruct r3 as [|c3 r4].
+    + intros H; inversion H; subst; cbn in *; lia.
+    + destruct (c3 =? 46).
+      * destruct (integer r4) as [[mx|e] r5] eqn:E5; apply integer_length in E5;
+          intros H; inversion H; subst; cbn in *; lia.
+      * intros H; inversion H; subst; cbn in *; lia.
+  - intros H; inversion H; subst; cbn in *; lia.
+Qed.
+
+Section Fuel.
+  Variable alpha alnum : N -> bool.
+
+  Lemma name_length : forall s n r, name alpha alnum s = (n, r) -> (length r <= length s)%nat.
+  Proof.
+    intros [|c s] n r; cbn.
+    - intros H; inversion H; subst; cbn; lia.
+    - destruct (alpha c).
+      + destruct (span _ s) as [a b] eqn:E. apply span_length in E.
+        intros H; inversion H; subst; cbn; lia.
+      + intros H; inversion H; subst; cbn; lia.
+  Qed.
+
+  (* nx makes progress on every input of length <= n *)
+  Definition good (nx : str -> res (option piece * str)) (n : nat) : Prop :=
+    forall s, (length s <= n)%nat ->
+      match nx s with
+      | Ok (Some _, r) => (length r < length s)%nat
+      | Ok (None, r) => (length r <= length s)%nat
+      | OutOfFuel => False
+      end.
+
+  Lemma arg_loop_ok :
+    forall nx n, good nx n ->
+    forall k s, (length s <= n)%nat -> (length s < k)%nat ->
+      exists x r, arg_loop nx k s = Ok (x, r) /\ (length r <= length s)%nat.
+  Proof.
+    intros nx n Hg. induction k as [|k IH]; intros s Hn Hk; [lia|].
+    cbn [arg_loop]. destruct (consume 41 s) as [r|] eqn:Ec.
+    - apply consume_length in Ec. eexists _, _; split; [reflexivity|lia].
+    - specialize (Hg s Hn). destruct (nx s) as [[[p|] r]|]; [| |contradiction].
+      + destruct (IH r) as (x & r' & E & L); [lia|lia|].
+        rewrite E. destruct x as [ps|e]; eexists _, _; (split; [reflexivity|lia]).
+      + eexists _, _; split; [reflexivity|lia].
+  Qed.
+
+  Lemma args_loop_ok :
+    forall nx n, good nx n ->
+    forall k s, (length s <= n)%nat -> (length s < k)%nat ->
+      exists x r, args_loop nx k s = Ok (x, r) /\ (length r <= length s)%nat.
+  Proof.
+    intros nx n Hg. induction k as [|k IH]; intros s Hn Hk; [lia|].
+    cbn [args_loop]. destruct (consume 40 s) as [r|] eqn:Ec.
+    - apply consume_length in Ec.
+      destruct (arg_loop_ok nx n Hg (S (length r)) r) as (x & r' & E & L); [lia|lia|].
+      rewrite E. destruct x as [a|e].
+      + destruct (IH r') as (y & r'' & E' & L'); [lia|lia|].
+        rewrite E'. destruct y; eexists _, _; (split; [reflexivity|lia]).
+      + eexists _, _; split; [reflexivity|lia].
+    - eexists _, _; split; [reflexivity|lia].
+  Qed.
+
+  Lemma argument_ok :
+    forall nx n, good nx n ->
+    forall s, (length s <= n)%nat ->
+      exists p r, argument alpha alnum nx s = Ok (p, r) /\ (length r <= length s)%nat.
+  Proof.
+    intros nx n Hg s Hn. unfold argument.
+    destruct (name alpha alnum s) as [nm r1] eqn:En. apply name_length in En.
+    destruct (args_loop_ok nx n Hg (S (length r1)) r1) as (x & r2 & E & L); [lia|lia|].
+    rewrite E. destruct x as [args|e].
+    - destruct (parameters r2) as [[p|e] r3] eqn:Ep; apply parameters_length in Ep;
+        eexists _, _; (split; [reflexivity|lia]).
+    - eexists _, _; split; [reflexivity|lia].
+  Qed.
+
+  Lemma argument_close_ok :
+    forall nx n, good nx n ->
+    forall s, (length s <= n)%nat ->
+      exists p r, argument_close alpha alnum nx s = Ok (Some p, r) /\ (length r <= length s)%nat.
+  Proof.
+    intros nx n Hg s Hn. unfold argument_close.
+    destruct (argument_ok nx n Hg s Hn) as (p & r & E & L). rewrite E.
+    destruct (consume 125 r) as [r'|] eqn:Ec.
+    - apply consume_length in Ec. eexists _, _; split; [reflexivity|lia].
+    - eexists _, _; split; [reflexivity|cbn; lia].
+  Qed.
+
+  Lemma next_S : forall d s,
+    next alpha alnum (S d) s =
+      match s with
+      | [] => Ok (None, [])
+      | c :: r =>
+        if c =? 123 then
+          match consume 123 r with
+          | Some r2 => Ok (Some (PText [123]), r2)
+          | None => argument_close alpha alnum (next alpha alnum d) r
+          end
+        else if c =? 125 then
+          match consume 125 r with
+          | Some r2 => Ok (Some (PText [125]), r2)
+          | None => Ok (Some (PError msg_unmatched_close), r)
+          end
+        else if c =? 40 then
+          match consume 40 r with
+          | Some r2 => Ok (Some (PText [40]), r2)
+          | None => Ok (Some (PError msg_unexpected_open), r)
+          end
+        else if c =? 41 then
+          match consume 41 r with
+          | Some r2 => Ok (Some (PText [41]), r2)
+          | None => Ok (Some (PError msg_unexpected_rpar), r)
+          end
+        else if c =? 92 then
+          match r with
+          | c2 :: r2 =>
+            if is_special c2 then Ok (Some (PText [c2]), r2)
+            else Ok (Some (PError msg_unexpected_bslash), r)
+          | [] => Ok (Some (PError msg_unexpected_bslash), r)
+          end
+        else
+          let (t, r') := text_run s in Ok (Some (PText t), r')
+      end.
+  Proof. reflexivity. Qed.
+
+  Lemma next_good : forall d, good (next alpha alnum (S d)) d.
+  Proof.
+    induction d as [|d IH]; intros s Hs.
+    - destruct s; [cbn; lia|cbn in Hs; lia].
+    - destruct s as [|c r]; [cbn; lia|].
+      cbn in Hs. rewrite next_S.
+      destruct (c =? 123).
+      { destruct (consume 123 r) as [r2|] eqn:Ec.
+        - apply consume_length in Ec. cbn; lia.
+        - destruct (argument_close_ok _ d IH r) as (p & r' & E & L); [lia|].
+          rewrite E. cbn; lia. }
+      destruct (c =? 125).
+      { destruct (consume 125 r) as [r2|] eqn:Ec; [apply consume_length in Ec|]; cbn; lia. }
+      destruct (c =? 40).
+      { destruct (consume 40 r) as [r2|] eqn:Ec; [apply consume_length in Ec|]; cbn; lia. }
+      destruct (c =? 41).
+      { destruct (consume 41 r) as [r2|] eqn:Ec; [apply consume_length in Ec|]; cbn; lia. }
+      destruct (c =? 92).
+      { destruct r as [|c2 r2]; [cbn; lia|]. destruct (is_special c2); cbn; lia. }
+      destruct (text_run (c :: r)) as [t r'] eqn:Et.
+      unfold text_run in Et. cbn in Et.
+      destruct (negb (is_special c)) eqn:Es.
+      + destruct (span _ r) as [a b] eqn:E. apply span_length in E.
+        inversion Et; subst. cbn; lia.
+      + (* c is special: contradiction with the tests above *)
+        exfalso. apply negb_false_iff in Es. unfold is_special in Es.
+        repeat match goal with
+               | H : context [?x =? ?y] |- _ => destruct (x =? y) eqn:?; try discriminate
+               end.
+  Qed.
+
+  Lemma top_loop_ok :
+    forall nx n, good nx n ->
+    forall k s, (length s <= n)%nat -> (length s < k)%nat -> top_loop nx k s <> OutOfFuel.
+  Proof.
+    intros nx n Hg. induction k as [|k IH]; intros s Hn Hk; [lia|].
+    cbn [top_loop]. specialize (Hg s Hn). destruct (nx s) as [[[p|] r]|]; [| discriminate | contradiction].
+    specialize (IH r). destruct (top_loop nx k r); [discriminate|].
+    exfalso. apply IH; [lia|lia|reflexivity].
+  Qed.
+
+  Theorem parse_total : forall s, parse alpha alnum s <> OutOfFuel.
+  Proof.
+    intros s. unfold parse.
+    apply (top_loop_ok _ (length s) (next_good (length s))); lia.
+  Qed.
+End Fuel.
+
+(* ------------------------------------------------------------------ *)
+(* a readable unfolding of From<Piece> for Chunk *)
+
+Definition group_chunk (cmp : piece -> chunk) (g : group) (args : list (list piece)) (prm : params)
+  : chunk :=
+  match args with
+  | [a] => CGroup g (map cmp a) prm
+  | _ => CError (LIT "expected exactly one argument")
+  end.
+
+Definition compile_arg (ok : str -> bool) (nm : str) (args : list (list piece)) (prm : params)
+  : chunk :=
+  let cmp := compile ok in
+  if one_of nm (LIT "d") (LIT "date") then compile_date ok args prm
+  else if one_of nm (LIT "h") (LIT "highlight") then group_chunk cmp GHighlight args prm
+  else if one_of nm (LIT "D") (LIT "debug") then group_chunk cmp GDebug args prm
+  else if one_of nm (LIT "R") (LIT "release") then group_chunk cmp GRelease args prm
+  else if one_of nm (LIT "l") (LIT "level") then no_args args prm KLevel
+  else if one_of nm (LIT "m") (LIT "message") then no_args args prm KMessage
+  else if one_of nm (LIT "M") (LIT "module") then no_args args prm KModule
+  else if str_eqb nm (LIT "n") then no_args args prm KNewline
+  else if one_of nm (LIT "f") (LIT "file") then no_args args prm KFile
+  else if one_of nm (LIT "L") (LIT "line") then no_args args prm KLine
+  else if one_of nm (LIT "T") (LIT "thread") then no_args args prm KThread
+  else if one_of nm (LIT "I") (LIT "thread_id") then no_args args prm KThreadId
+  else if one_of nm (LIT "P") (LIT "pid") then no_args args prm KPid
+  else if one_of nm (LIT "i") (LIT "tid") then no_args args prm KSysTid
+  else if one_of nm (LIT "t") (LIT "target") then no_args args prm KTarget
+  else if one_of nm (LIT "X") (LIT "mdc") then compile_mdc args prm
+  else if str_eqb nm [] then group_chunk cmp GAlign args prm
+  else CError (LIT "unknown formatter `" ++ nm ++ LIT "`").
+
+Lemma compile_PArg : forall ok nm args prm,
+  compile ok (PArg nm args prm) = compile_arg ok nm args prm.
+Proof.
+  intros ok nm args prm. unfold compile_arg.
+  destruct args as [|a [|b r]]; reflexivity.
+Qed.
+
+(* ------------------------------------------------------------------ *)
+(* no panic: construction never yields CPanic, encoding never yields Boom *)
+
+Section NoPanic.
+  Variable strftime_ok : str -> bool.
+
+  (* no panic marker, and every date chunk carries a validated format *)
+  Fixpoint chunk_safe (c : chunk) : bool :=
+    match c with
+    | CPanic => false
+    | CLeaf (KTime f _) _ => strftime_ok f
+    | CGroup _ cs _ => forallb chunk_safe cs
+    | _ => true
+    end.
+
+  Lemma no_args_safe : forall args prm k,
+    (forall f z, k <> KTime f z) -> chunk_safe (no_args args prm k) = true.
+  Proof.
+    intros [|a r] prm k H; cbn; [|reflexivity].
+    destruct k; try reflexivity. exfalso; eapply H; reflexivity.
+  Qed.
+
+  Lemma compile_date_safe : forall args prm, chunk_safe (compile_date strftime_ok args prm) = true.
+  Proof.
+    intros args prm. unfold compile_date.
+    destruct (Nat.ltb 2 (length args)); [reflexivity|].
+    set (fmt := match args with a :: _ => date_format_of a | [] => _ end).
+    destruct (strftime_ok fmt) eqn:E; cbn [negb]; [|reflexivity].
+    destruct (nth_error args 1) as [[|[z| |] r]|]; try reflexivity; cbn; try exact E.
+    destruct (str_eqb z _); [exact E|]. destruct (str_eqb z _); [exact E|reflexivity].
+  Qed.
+
+  Lemma compile_mdc_safe : forall args prm, chunk_safe (compile_mdc args prm) = true.
+  Proof.
+    intros args prm. unfold compile_mdc.
+    destruct (Nat.ltb 2 (length args)); [reflexivity|].
+    destruct args as [|a r]; [reflexivity|].
+    destruct (mdc_arg _ a); [|reflexivity].
+    destruct (nth_error (a :: r) 1) as [b|]; [|reflexivity].
+    destruct (mdc_arg _ b); reflexivity.
+  Qed.
+
+  Lemma group_chunk_safe : forall g args prm,
+    Forall (Forall (fun p => chunk_safe (compile strftime_ok p) = true)) args ->
+    chunk_safe (group_chunk (compile strftime_ok) g args prm) = true.
+  Proof.
+    intros g [|a [|b r]] prm H; try reflexivity.
+    cbn. inversion H as [|? ? Ha _]; subst. clear H.
+    induction Ha as [|x l Hx _ IH]; cbn; [reflexivity|]. rewrite Hx. exact IH.
+  Qed.
+
+  Lemma compile_safe : forall p, chunk_safe (compile strftime_ok p) = true.
+  Proof.
+    induction p as [t|m|nm args prm IH] using piece_ind'; try reflexivity.
+    rewrite compile_PArg. unfold compile_arg.
+    repeat match goal with
+           | |- chunk_safe (if ?b then _ else _) = true => destruct b
+           end;
+      try apply compile_date_safe; try apply compile_mdc_safe;
+      try (apply group_chunk_safe; exact IH);
+      try (apply no_args_safe; intros; discriminate).
+    reflexivity.
+  Qed.
+
+  Variable time_str : str -> tz -> str.
+  Variable e : env.
+
+  Definition no_boom (l : list item) : Prop := ~ In Boom l.
+
+  Lemma no_boom_app : forall a b, no_boom a -> no_boom b -> no_boom (a ++ b).
+  Proof. unfold no_boom; intros a b Ha Hb H. apply in_app_or in H. tauto. Qed.
+
+  Lemma no_boom_chars : forall s, no_boom (chars s).
+  Proof.
+    unfold no_boom, chars; intros s H. apply in_map_iff in H.
+    destruct H as (c & H & _); discriminate.
+  Qed.
+
+  Lemma no_boom_trunc : forall l M, no_boom l -> no_boom (trunc M l).
+  Proof.
+    unfold no_boom. induction l as [|x l IH]; intros M H; cbn; [tauto|].
+    assert (Hl : ~ In Boom l) by (intro; apply H; right; assumption).
+    assert (Hx : x <> Boom) by (intro; apply H; left; assumption).
+    destruct x as [c|s|]; [| |congruence].
+    - destruct (M =? 0); [apply IH; exact Hl|].
+      intros [F|F]; [discriminate|]. eapply IH; eassumption.
+    - intros [F|F]; [discriminate|]. eapply IH; eassumption.
+  Qed.
+
+  Lemma no_boom_padding : forall f n, no_boom (padding f n).
+  Proof.
+    unfold no_boom, padding; intros f n H. apply repeat_spec in H. discriminate.
+  Qed.
+
+  Lemma no_boom_apply_params : forall p l, no_boom l -> no_boom (apply_params p l).
+  Proof.
+    intros p l H. unfold apply_params, pad_side.
+    destruct (p_min p), (p_max p); try assumption;
+      try apply no_boom_trunc;
+      destruct (p_align p); try apply no_boom_app; auto using no_boom_padding.
+  Qed.
+
+  Lemma no_boom_flat_map : forall (f : chunk -> list item) cs,
+    Forall (fun c => no_boom (f c)) cs -> no_boom (flat_map f cs).
+  Proof.
+    induction 1; cbn; [unfold no_boom; tauto|]. apply no_boom_app; assumption.
+  Qed.
+
+  Lemma enc_chunk_no_boom : forall c,
+    chunk_safe c = true -> no_boom (enc_chunk strftime_ok time_str e c).
+  Proof.
+    induction c as [t|k p|m| |g cs p IH] using chunk_ind'; intros Hs; cbn [enc_chunk].
+    - apply no_boom_chars.
+    - apply no_boom_apply_params. destruct k; cbn; try apply no_boom_chars.
+      cbn in Hs. rewrite Hs. apply no_boom_chars.
+    - apply no_boom_chars.
+    - discriminate.
+    - apply no_boom_apply_params.
+      assert (Hb : no_boom (flat_map (enc_chunk strftime_ok time_str e) cs)).
+      { apply no_boom_flat_map. cbn in Hs. rewrite forallb_forall in Hs.
+        rewrite Forall_forall in *. intros c Hc. apply IH; [exact Hc|]. apply Hs; exact Hc. }
+      destruct g; cbn; try exact Hb.
+      + destruct (level_style (e_level e)); [|exact Hb].
+        intros [F|F]; [discriminate|]. apply in_app_or in F. destruct F as [F|[F|[]]];
+          [exact (Hb F)|discriminate].
+      + destruct (e_debug e); [exact Hb|unfold no_boom; tauto].
+      + destruct (e_debug e); [unfold no_boom; tauto|exact Hb].
+  Qed.
+End NoPanic.
+
+Fixpoint no_cpanic (c : chunk) : bool :=
+  match c with
+  | CPanic => false
+  | CGroup _ cs _ => forallb no_cpanic cs
+  | _ => true
+  end.
+
+Lemma safe_no_cpanic : forall ok c, chunk_safe ok c = true -> no_cpanic c = true.
+Proof.
+  intros ok. induction c as [t|k p|m| |g cs p IH] using chunk_ind'; cbn; intros H; try reflexivity;
+    try discriminate.
+  rewrite forallb_forall in *. rewrite Forall_forall in IH. intros c Hc. apply IH; auto.
+Qed.
+
+(* PatternEncoder::new never panics, whatever the string *)
+Theorem construct_no_panic :
+  forall alpha alnum ok s,
+    exists cs, construct alpha alnum ok s = Ok cs /\ forallb no_cpanic cs = true.
+Proof.
+  intros alpha alnum ok s. unfold construct.
+  destruct (parse alpha alnum s) as [ps|] eqn:E; [|exfalso; eapply parse_total; eassumption].
+  eexists; split; [reflexivity|].
+  apply forallb_forall. intros c Hc. apply in_map_iff in Hc. destruct Hc as (p & <- & _).
+  eapply safe_no_cpanic. apply compile_safe.
+Qed.
+
+(* Encode::encode never panics on an encoder constructed from any string *)
+Theorem encode_no_panic :
+  forall alpha alnum ok ts e s cs,
+    construct alpha alnum ok s = Ok cs -> ~ In Boom (encode ok ts e cs).
+Proof.
+  intros alpha alnum ok ts e s cs. unfold construct.
+  destruct (parse alpha alnum s) as [ps|]; [|discriminate].
+  intros H; inversion H; subst; clear H. unfold encode.
+  apply no_boom_flat_map. apply Forall_forall. intros c Hc.
+  apply in_map_iff in Hc. destruct Hc as (p & <- & _).
+  apply enc_chunk_no_boom. apply compile_safe.
+Qed.
+
+(* every top-level Error chunk is visible in the output as {ERROR: msg} *)
+Theorem errors_visible :
+  forall ok ts e cs m,
+    In (CError m) cs ->
+    exists pre post, encode ok ts e cs = pre ++ chars (LIT "{ERROR: " ++ m ++ [125]) ++ post.
+Proof.
+  intros ok ts e cs m H. apply in_split in H. destruct H as (l1 & l2 & ->).
+  unfold encode. rewrite flat_map_app. cbn [flat_map enc_chunk].
+  eexists _, _; reflexivity.
+Qed.
